@@ -263,7 +263,7 @@ def cases(tier, seed, shard, nshards):
     for feats in shapes:
         for pos in POSITIONS:
             for d in DIALECT_CLASSES:
-                for mode in ("inline", "param", "as-keyword"):
+                for mode in ("inline", "param", "as-keyword") + (("alias-quote",) if d in ("Query", "SQLLiteQuery") else ()):
                     k += 1
                     if k % nshards == shard:
                         yield {"feats": feats, "pos": pos, "d": d, "mode": mode}
@@ -281,6 +281,10 @@ def render(o, d, mode):
         ctx = ctx.copy(parameterizer=r["Parameterizer"]())
     elif mode == "as-keyword":  # a flag the caller may set on the context: it holds for the whole tree or for none of it
         ctx = ctx.copy(as_keyword=True)
+    elif mode == "alias-quote":
+        # a caller's own alias quote character, another one than the identifier quote (only for the generic and the SQLite class: their
+        # reference lexer reads the backtick as an identifier quote as well; the other lexers know one identifier quote)
+        ctx = ctx.copy(alias_quote_char="`")
     return o.get_sql(ctx)
 
 
@@ -334,6 +338,10 @@ def run_case(case, mon):
     mon.count("embeddings_rendered")
     mon.add("cells", "%s|%s" % (pos, fam))
     ta, to = norm(tokenize(s_alone, d)), norm(tokenize(s_outer, d))
+    if mode == "alias-quote":
+        # which of the two quote characters delimits a name is part of the text under comparison here
+        keepq = lambda toks_: [(t_.kind, t_.text if t_.kind == "IDENT" else ("PARAM" if t_.kind == "PARAM" else (t_.value if t_.kind in ("STR", "NUM", "WORD") else t_.text))) for t_ in toks_]  # noqa: E731
+        ta, to = keepq(tokenize(s_alone, d)), keepq(tokenize(s_outer, d))
     wrap, alias = exp
     wraps = r[d]._builder().wrap_set_operation_queries if wrap == "operand" else True
     if wrap == "cte":
@@ -343,7 +351,7 @@ def run_case(case, mon):
     else:
         needle = [("PUNCT", "(")] + ta + [("PUNCT", ")")]
     if alias:
-        needle = needle + ([("WORD", "AS")] if mode == "as-keyword" else []) + [("IDENT", alias)]
+        needle = needle + ([("WORD", "AS")] if mode == "as-keyword" else []) + [("IDENT", ("`%s`" % alias) if mode == "alias-quote" else alias)]
     i = find_sub(to, needle)
     nontrivial = bool(case["feats"])
     if i >= 0:
